@@ -6311,6 +6311,64 @@ func ruleRelease(c *Ctx, r *Rep) {
 		if deletes && recurses && arrays && objects {
 			good = "allocator." + sel.Sel.Name
 		}
+		// (fourth session) every container is walked, owned or not: inside the container arms nothing returns before the
+		// recursion (an unowned wrapper built by the update function can hold an owned container twice)
+		prunes := token.NoPos
+		ast.Inspect(d.Body, func(q ast.Node) bool {
+			cc, ok := q.(*ast.CaseClause)
+			if !ok {
+				return true
+			}
+			isContainer := false
+			for _, e := range cc.List {
+				if t := types.ExprString(e); t == "[]any" || t == "map[string]any" {
+					isContainer = true
+				}
+			}
+			if !isContainer {
+				return true
+			}
+			var recPos token.Pos
+			for _, st := range cc.Body {
+				ast.Inspect(st, func(z ast.Node) bool {
+					if x, ok := z.(*ast.CallExpr); ok {
+						if s2, ok := x.Fun.(*ast.SelectorExpr); ok && s2.Sel.Name == sel.Sel.Name && !recPos.IsValid() {
+							recPos = x.Pos()
+						}
+					}
+					return true
+				})
+			}
+			for _, st := range cc.Body {
+				ast.Inspect(st, func(z ast.Node) bool {
+					if rs, ok := z.(*ast.ReturnStmt); ok && (!recPos.IsValid() || rs.Pos() < recPos) {
+						prunes = rs.Pos()
+					}
+					return true
+				})
+			}
+			return true
+		})
+		r.Check(!prunes.IsValid(), "release:walks-everything", d.Pos(), "allocator.%s returns from a container arm before recursing into the elements (%s): %v — a wrapper the update function has just built is not owned, but it can hold an owned container twice: `{\"a\":{\"x\":1}} | (.a.x, .a, .a.p.x) |= (if type==\"object\" then {p:.,q:.} else .+1 end)` then writes q.x through p.x", sel.Sel.Name, c.Pos(prunes), prunes.IsValid())
+		// and setpath reaches the call on every path that stores the new value: no return before it except the error
+		// returns of the argument checks (returns of an error composite)
+		early := token.NoPos
+		ast.Inspect(fd.Body, func(q ast.Node) bool {
+			rs, ok := q.(*ast.ReturnStmt)
+			if !ok || rs.Pos() > call.Pos() || len(rs.Results) != 1 {
+				return true
+			}
+			if u, ok := unparen(rs.Results[0]).(*ast.UnaryExpr); ok && u.Op == token.AND {
+				if cl, ok := u.X.(*ast.CompositeLit); ok {
+					if t := info.TypeOf(cl); t != nil && (types.Implements(types.NewPointer(t), errorIface()) || types.Implements(t, errorIface())) {
+						return true
+					}
+				}
+			}
+			early = rs.Pos()
+			return true
+		})
+		r.Check(!early.IsValid(), "release:no-early-return", fd.Pos(), "setpath returns a value before it has released the new value (%s): %v — a shortcut for the empty path (`return n`) skips the release when the update function's result replaces the root", c.Pos(early), early.IsValid())
 		return true
 	})
 	r.Check(good != "", "release:setpath", fd.Pos(), "setpath gives up ownership of the containers in the new value before update stores it (%s): %v — `{\"a\":[[0]]} | (.a[0][0], .a, .a[0][0]) |= (if type == \"number\" then .+1 else [.[0], .[0]] end)` otherwise yields [[2],[2]] where the defining reduction gives [[2],[1]]: the duplicated array is still owned and is written in place through one of its two positions", good, good != "")
